@@ -260,6 +260,12 @@ def _map_to_station_ids(
 
                 # all of these station ids should get entries managers the provided geoid
                 for station_id in station_ids:
+                    if res > sim.sim_h3_search_resolution:
+                        # the search cell is larger than the region named by this geoid:
+                        # only stations that lie inside the named region are updated
+                        station = sim.stations.get(station_id)
+                        if station is None or h3.h3_to_parent(station.geoid, res) != k:
+                            continue
                     updated.update({station_id: this_update[k]})
 
             except ValueError as e:
